@@ -506,7 +506,35 @@ def _extractor(ctx, prog, sn_bodies, enum_path):
     if not cands:
         ctx.anchor_lost("H1", "authority extractor: comparison of the method with \"CONNECT\" reached from the sniffer")
         return None
-    return prog.flat(prog.body(cands[0]).root if prog.body(cands[0]).kind in ("Fn", "AssocFn") else cands[0])
+    # of several functions that look at the method, the extractor is the one that answers with the classification (its result type is the enum)
+    uniq = list(dict.fromkeys(cands))
+    typed = [c_ for c_ in uniq if prog.body(c_) is not None and last_seg(enum_path) in (prog.body(prog.body(c_).root).local_ty(0) or "")]
+    pick = (typed or uniq)[0]
+    ext_fb = prog.flat(prog.body(pick).root if prog.body(pick).kind in ("Fn", "AssocFn") else pick)
+    # H1e: what the extractor is given as the request target is the target of the request line as the parser reported it - not a value computed
+    # from the header block (a `Host` header that disagrees with an absolute-form target must lose, RFC 9112 3.2.2; a proxy that follows it
+    # tunnels the request to a host the request line does not name)
+    root_ = prog.body(pick).root
+    n_sites = 0
+    for b in sn_bodies:
+        for (blk, c, t) in b.calls():
+            tb = prog.body(c.target)
+            if tb is None or tb.root != root_ or (getattr(b, "is_flat", False) and "inlined_call" not in t and False):
+                continue
+            for i, a in enumerate(t["args"]):
+                q = op_place(a)
+                if q is None or "str" not in b.local_ty(q[0]):
+                    continue
+                _, acalls, _ = b.slice_back([q[0]])
+                via = [cc.name for (_, cc, _) in acalls if (cc.target.startswith("octo_squirrel") and prog.body(cc.target) is not None and prog.body(cc.target).root != root_)
+                       or cc.method in ("find", "find_map", "position", "iter", "filter", "and_then", "eq_ignore_ascii_case") or "Header" in (cc.self_s or "")]
+                n_sites += 1
+                ctx.ob("H1", b.defp, f"extractor-argument-is-the-request-line's:{i}", loc(t["sp"]), not via,
+                       "the extractor is handed the method / target exactly as the request-line parser reported them" if not via else
+                       f"the value handed to the extractor as request {'method' if i == 0 else 'target'} is computed ({', '.join(sorted(set(via))[:4])}) instead of being the request line's own: "
+                       "e.g. a Host header that disagrees with an absolute-form target decides where the request is tunnelled")
+    ctx.floor("H1", "string arguments of the extractor's call site(s)", 2, n_sites)
+    return ext_fb
 
 
 def _check_extractor(ctx, prog, eb, enum_path, tunnel_variants):
